@@ -10,6 +10,7 @@ class Spec(runner.Spec):
     # the `package` line and the file name, decided by proof (Proto/Package.lean)
     extra_prop_files = ["C18Pkg"]
     assumptions = [
+        "one value per writer is what the property speaks of; in addition every `enc` request writes the value twice with ONE ProtobufWriter and compares what the second write appends with the octets of a fresh writer (`reuse:`) — flagged for SEQUENCE/SET/ENUMERATED/list roots; a root CHOICE leaves the writer of the code as it is in the nested state, reuse after it is outside the property",
         "dev profile; types: the zoo harness/zoo/*.asn1 compiled by the real converter to Rust and, by the same Converter object, to .proto files (Converter::to_protobuf in harness/build.rs)",
         "independent decoder: protoc --decode (libprotoc 3.21.12 in the sandbox) on the unmodified generated files copied to .work/proto_c18/orig; when protoc rejects a file, the definitions it points at are removed from a second copy (.work/proto_c18/usable) so that the remaining messages of that module can still be decoded — the rejection itself is reported by the `proto schema` request of the offending definition",
         "if protoc is not installed the check says so (coverage.notes / histogram tag decoder:builtin) and uses the built-in proto3 wire decoder of tools/proto_streams.py alone; with protoc present both decoders run and must agree",
